@@ -491,6 +491,7 @@ func doCpu(repo, outDir string) {
 		sort.Strings(names)
 		knownConsts := loadKnownConsts(outDir)
 		skipped := []string{}
+		emitted := map[string]bool{}
 		for _, n := range names {
 			for i, r := range rets[n] {
 				ex := ""
@@ -505,7 +506,21 @@ func doCpu(repo, outDir string) {
 					continue
 				}
 				fmt.Fprintf(&b, "  %s := %d%s\n", field, r.lit, ex)
+				emitted[field] = true
 			}
+		}
+		// a literal the model expects but the source no longer has in this place (the function was restructured): the
+		// record must stay well-formed so that only the obligation ABOUT the literals (`consts_ok`, property C02) fails,
+		// not every module that merely mentions the record
+		missing := []string{}
+		for f := range knownConsts {
+			if !emitted[f] {
+				missing = append(missing, f)
+			}
+		}
+		sort.Strings(missing)
+		for _, f := range missing {
+			fmt.Fprintf(&b, "  %s := 999999  -- NOT FOUND in the source\n", f)
 		}
 		if len(skipped) > 0 {
 			b.WriteString("\n-- not part of the model: " + strings.Join(skipped, ", ") + "\n")
